@@ -130,7 +130,7 @@ def varDefOf? : Node → Option VarDef | .varDef v => some v | _ => none
 theorem defnsOf_useEvs (l : List (String × Usage)) : defnsOf (VC.useEvs l) = [] := by
   induction l with
   | nil => rfl
-  | cons p l ih => simpa [defnsOf, VC.useEvs] using ih
+  | cons p l ih => simp [defnsOf, VC.useEvs]
 
 theorem defnsOf_append (a b : List VEv) : defnsOf (a ++ b) = defnsOf a ++ defnsOf b := by simp [defnsOf]
 
